@@ -237,8 +237,11 @@ class Decompiler(object):
                     arg = [cmp_op[oparg]]
                 elif op in hasfree:
                     if PY311:
-                        oparg -= len(code.co_varnames)
-                    arg = [free[oparg]]
+                        # oparg indexes the "fast locals" array, where a parameter that is also
+                        # a cell variable has a single slot (so co_varnames + free is not the layout)
+                        arg = [code._varname_from_oparg(oparg)]
+                    else:
+                        arg = [free[oparg]]
                 elif op in hasjabs:
                     arg = [oparg * (2 if PY310 else 1)]
                 else:
